@@ -192,8 +192,9 @@ func (e *MetaCDC) ReloadTask() {
 		newCollectionNames := GetCollectionNamesFromTaskInfo(taskInfo)
 		e.collectionNames.data[uKey] = append(e.collectionNames.data[uKey], newCollectionNames...)
 		e.collectionNames.excludeData[uKey] = append(e.collectionNames.excludeData[uKey], taskInfo.ExcludeCollections...)
-		e.collectionNames.excludeData[uKey] = lo.Uniq(e.collectionNames.excludeData[uKey])
-		e.collectionNames.extraInfos[uKey] = taskInfo.ExtraInfo
+		e.collectionNames.extraInfos[uKey] = model.ExtraInfo{
+			EnableUserRole: e.collectionNames.extraInfos[uKey].EnableUserRole || taskInfo.ExtraInfo.EnableUserRole,
+		}
 		e.cdcTasks.Lock()
 		e.cdcTasks.data[taskInfo.TaskID] = taskInfo
 		e.cdcTasks.Unlock()
@@ -315,6 +316,21 @@ func GetCollectionMappingFromTaskInfo(info *meta.TaskInfo) map[string]string {
 		}
 	}
 	return mapCollectionNames
+}
+
+// withoutOnce removes one occurrence of every exclude element from the collection,
+// an element which is excluded by two tasks must survive the removal of one of them
+func withoutOnce(collection []string, exclude ...string) []string {
+	result := append([]string{}, collection...)
+	for _, s := range exclude {
+		for i, v := range result {
+			if v == s {
+				result = append(result[:i], result[i+1:]...)
+				break
+			}
+		}
+	}
+	return result
 }
 
 func matchCollectionName(sampleCollection, targetCollection string) (bool, bool) {
@@ -475,11 +491,19 @@ func (e *MetaCDC) Create(req *request.CreateRequest) (resp *request.CreateRespon
 		return nil, err
 	}
 
+	reverted := false
 	revertCollectionNames := func() {
 		e.collectionNames.Lock()
 		defer e.collectionNames.Unlock()
-		e.collectionNames.excludeData[uKey] = lo.Without(e.collectionNames.excludeData[uKey], excludeCollectionNames...)
-		e.collectionNames.data[uKey] = lo.Without(e.collectionNames.data[uKey], newCollectionNames...)
+		if reverted {
+			return
+		}
+		reverted = true
+		e.collectionNames.excludeData[uKey] = withoutOnce(e.collectionNames.excludeData[uKey], excludeCollectionNames...)
+		e.collectionNames.data[uKey] = withoutOnce(e.collectionNames.data[uKey], newCollectionNames...)
+		if req.ExtraInfo.EnableUserRole {
+			e.collectionNames.extraInfos[uKey] = model.ExtraInfo{}
+		}
 	}
 
 	defer func() {
@@ -618,6 +642,8 @@ func (e *MetaCDC) Create(req *request.CreateRequest) (resp *request.CreateRespon
 			log.Warn("fail to delete the task", zap.String("task_id", info.TaskID), zap.Error(deleteErr))
 			return nil, servererror.NewServerError(deleteErr)
 		}
+		// the delete has already removed the collection names of the task
+		reverted = true
 		return nil, err
 	}
 
@@ -1451,8 +1477,11 @@ func (e *MetaCDC) delete(taskID string) error {
 	uKey := getTaskUniqueIDFromInfo(info)
 	collectionNames := GetCollectionNamesFromTaskInfo(info)
 	e.collectionNames.Lock()
-	e.collectionNames.excludeData[uKey] = lo.Without(e.collectionNames.excludeData[uKey], info.ExcludeCollections...)
-	e.collectionNames.data[uKey] = lo.Without(e.collectionNames.data[uKey], collectionNames...)
+	e.collectionNames.excludeData[uKey] = withoutOnce(e.collectionNames.excludeData[uKey], info.ExcludeCollections...)
+	e.collectionNames.data[uKey] = withoutOnce(e.collectionNames.data[uKey], collectionNames...)
+	if info.ExtraInfo.EnableUserRole {
+		e.collectionNames.extraInfos[uKey] = model.ExtraInfo{}
+	}
 	e.collectionNames.Unlock()
 
 	e.cdcTasks.Lock()
